@@ -23,6 +23,7 @@ LEVEL = 'proof'
 SIFT = 'emd/sift.py'
 FUNCTIONS = ['emd.sift._find_extrema', 'emd.sift.compute_parabolic_extrema', 'emd.sift.get_padded_extrema', 'emd.sift.interp_envelope']
 ASSUMPTIONS = [
+    'assumed numpy contract: np.pad(a, w, "median") WITHOUT stat_length pads both sides with one value (the median of the whole vector, uninterpreted) - modelled so that a call site that lost its options is refuted, never relied on by the unchanged code',
     'floats are mathematical reals',
     'assumed scipy contract: signal.argrelextrema(x, cmp, order=1)[0] = increasing list of the interior indices i with cmp(x[i], x[i-1]) and cmp(x[i], x[i+1]) (stub parameterised by the comparator and the order actually passed)',
     'assumed numpy contract: np.pad(a, w, "reflect", reflect_type="odd") of a strictly increasing a is strictly increasing, keeps a in the middle, has length len(a)+2w and its first pad values are 2a[0]-a[1+j] / 2a[-1]-a[-2-j]; np.pad(a, w, "median", stat_length=1) repeats the end values',
